@@ -97,6 +97,15 @@ def ensure_lockfile():
 
 def sync_alt_harness():
     """Mirror harness/ into the alt directory with /repo path dependencies rewritten."""
+    # drop files that no longer exist in the source tree (a stale bin would break the build)
+    for root, dirs, files in os.walk(HARNESS):
+        dirs[:] = [d for d in dirs if d != "target"]
+        rel = os.path.relpath(root, HARNESS)
+        for f in files:
+            if f == "Cargo.lock":
+                continue
+            if not os.path.exists(os.path.join(HARNESS_SRC, rel, f)):
+                os.remove(os.path.join(root, f))
     for root, dirs, files in os.walk(HARNESS_SRC):
         dirs[:] = [d for d in dirs if d != "target"]
         rel = os.path.relpath(root, HARNESS_SRC)
